@@ -137,6 +137,10 @@ impl SignedPacket {
         if bytes.len() > MAX_SIGNED_PACKET_SIZE {
             return Err(e!(SignedPacketVerifyError::TooLarge { len: bytes.len() }));
         }
+        // The signature is not checked here, but the key bytes must still be a valid public
+        // key: `public_key()` (and with it `Debug`, `Display`, `txt_records`) relies on it.
+        PublicKey::try_from(&bytes[..32])
+            .map_err(|e| e!(SignedPacketVerifyError::InvalidKey, e))?;
         Packet::parse(&bytes[104..])
             .map_err(|e| e!(SignedPacketVerifyError::DnsError, anyerr!(e)))?;
         Ok(SignedPacket {
